@@ -22,6 +22,7 @@ import   "fmt"
 import   "math"
 
 import . "github.com/pbenner/autodiff"
+import   "github.com/pbenner/autodiff/verifhook"
 import   "github.com/pbenner/autodiff/algorithm/matrixInverse"
 import   "github.com/pbenner/autodiff/algorithm/cholesky"
 import   "github.com/pbenner/autodiff/algorithm/lineSearch"
@@ -173,6 +174,7 @@ func newton_root(f objective_root, x ConstVector,
   t2 := inSitu.T2
 
   for i := 0; i < maxIterations.Value; i++ {
+    verifhook.Tick("newton.iter")
     // execute hook if available
     if hook.Value != nil && hook.Value(x1, J, y) {
       break
@@ -192,6 +194,7 @@ func newton_root(f objective_root, x ConstVector,
     // this is a simplified line search that tries to
     // satisfy the constraints
     for {
+      verifhook.Tick("newton.root.halving")
       x2.VsubV(x1, t1)
       if Vequals(x1, x2) {
         return x1, fmt.Errorf("line search failed")
@@ -275,6 +278,7 @@ func newton_min(
   }
 
   for i := 0; i < maxIterations.Value; i++ {
+    verifhook.Tick("newton.iter")
     // execute hook if available
     if hook.Value != nil && hook.Value(x1, g, H, y1) {
       break
@@ -305,6 +309,7 @@ func newton_min(
       }
     } else {
       for {
+        verifhook.Tick("newton.crit.halving")
         x2.VsubV(x1, t1)
         if Vequals(x1, x2) {
           return x1, fmt.Errorf("line search failed")
